@@ -166,6 +166,8 @@ def run_history(P):
                 b.go_down()
                 net.call_later(P["stagger"]["leader_down_for"], b.come_up)
                 H["staggered_leader"] = b.node_id
+            saved_md = plan.p.get("Metadata", 0.0)
+            plan.p["Metadata"] = 0.0           # bootstrap itself must succeed: start() is not the subject here
             plan.enabled = True
         try:
             await cons.start()
@@ -173,6 +175,8 @@ def run_history(P):
             log("exception", during="start", exc=type(e).__name__, msg=str(e)[:200])
             H["errors"].append(f"start failed: {type(e).__name__}: {e}")
             return
+        if P.get("stagger"):
+            plan.p["Metadata"] = saved_md
         plan.enabled = True
         plan.quiet_at = loop.time() + 0.75 * settle_bound(P)
         log("started", assignment=sorted(tp.partition for tp in cons.assignment()), events=loop.events)
